@@ -185,7 +185,7 @@ theorem trNested_ext {all : List String} {te te' : C.TyEnv} {m : Bool} {d : Nat}
 /-! ### name-free expressions in C -/
 
 theorem C_eval_nameFree_total (te : C.TyEnv) (s : Store) (e : Expr) (h : e.nameFree = true) :
-    (∃ v, C.eval te s e = .ok v) ∨ C.eval te s e = .error .overflow := by
+    (∃ v, C.eval te s e = .ok v) ∨ UB (C.eval te s e) := by
   induction e with
   | int n => left; exact ⟨_, rfl⟩
   | bool b => left; exact ⟨_, rfl⟩
@@ -200,8 +200,8 @@ theorem C_eval_nameFree_total (te : C.TyEnv) (s : Store) (e : Expr) (h : e.nameF
         rcases chk_cases (op.eval x.toInt y.toInt) with hc | hc
         · left; exact ⟨_, hc⟩
         · right; exact hc
-      · rw [hy]; right; rfl
-    · rw [hx]; right; rfl
+      · right; exact ub_bind _ hy
+    · right; exact ub_bind _ hx
   | neg a iha =>
     simp only [Expr.nameFree] at h
     rw [C.eval]
@@ -210,7 +210,7 @@ theorem C_eval_nameFree_total (te : C.TyEnv) (s : Store) (e : Expr) (h : e.nameF
       rcases chk_cases (-x.toInt) with hc | hc
       · left; exact ⟨_, hc⟩
       · right; exact hc
-    · rw [hx]; right; rfl
+    · right; exact ub_bind _ hx
   | cmp op a b iha ihb =>
     simp only [Expr.nameFree, Bool.and_eq_true] at h
     rw [C.eval]
@@ -218,8 +218,8 @@ theorem C_eval_nameFree_total (te : C.TyEnv) (s : Store) (e : Expr) (h : e.nameF
     · rw [hx, ok_bind]
       rcases ihb h.2 with ⟨y, hy⟩ | hy
       · rw [hy, ok_bind]; left; exact ⟨_, rfl⟩
-      · rw [hy]; right; rfl
-    · rw [hx]; right; rfl
+      · right; exact ub_bind _ hy
+    · right; exact ub_bind _ hx
   | and a b iha ihb =>
     simp only [Expr.nameFree, Bool.and_eq_true] at h
     rw [C.eval]
@@ -228,9 +228,9 @@ theorem C_eval_nameFree_total (te : C.TyEnv) (s : Store) (e : Expr) (h : e.nameF
       split
       · rcases ihb h.2 with ⟨y, hy⟩ | hy
         · rw [hy, ok_bind]; left; exact ⟨_, rfl⟩
-        · rw [hy]; right; rfl
+        · right; exact ub_bind _ hy
       · left; exact ⟨_, rfl⟩
-    · rw [hx]; right; rfl
+    · right; exact ub_bind _ hx
   | or a b iha ihb =>
     simp only [Expr.nameFree, Bool.and_eq_true] at h
     rw [C.eval]
@@ -240,14 +240,14 @@ theorem C_eval_nameFree_total (te : C.TyEnv) (s : Store) (e : Expr) (h : e.nameF
       · left; exact ⟨_, rfl⟩
       · rcases ihb h.2 with ⟨y, hy⟩ | hy
         · rw [hy, ok_bind]; left; exact ⟨_, rfl⟩
-        · rw [hy]; right; rfl
-    · rw [hx]; right; rfl
+        · right; exact ub_bind _ hy
+    · right; exact ub_bind _ hx
   | not a iha =>
     simp only [Expr.nameFree] at h
     rw [C.eval]
     rcases iha h with ⟨x, hx⟩ | hx
     · rw [hx, ok_bind]; left; exact ⟨_, rfl⟩
-    · rw [hx]; right; rfl
+    · right; exact ub_bind _ hx
   | ite c a b ihc iha ihb =>
     simp only [Expr.nameFree, Bool.and_eq_true] at h
     rw [C.eval]
@@ -256,11 +256,11 @@ theorem C_eval_nameFree_total (te : C.TyEnv) (s : Store) (e : Expr) (h : e.nameF
       split
       · rcases iha h.1.2 with ⟨y, hy⟩ | hy
         · rw [hy, ok_bind]; left; exact ⟨_, rfl⟩
-        · rw [hy]; right; rfl
+        · right; exact ub_bind _ hy
       · rcases ihb h.2 with ⟨y, hy⟩ | hy
         · rw [hy, ok_bind]; left; exact ⟨_, rfl⟩
-        · rw [hy]; right; rfl
-    · rw [hx]; right; rfl
+        · right; exact ub_bind _ hy
+    · right; exact ub_bind _ hx
 
 theorem C_eval_nameFree_store (te : C.TyEnv) (s s' : Store) (e : Expr) (h : e.nameFree = true) :
     C.eval te s e = C.eval te s' e :=
@@ -270,7 +270,7 @@ theorem C_eval_nameFree_store (te : C.TyEnv) (s s' : Store) (e : Expr) (h : e.na
 
 theorem init_total (te : C.TyEnv) (gl : List (String × Ty × Expr)) (s : Store)
     (hnf : ∀ g ∈ gl, g.2.2.nameFree = true) :
-    (∃ s0, C.initGlobals te gl s = .ok s0) ∨ C.initGlobals te gl s = .error .overflow := by
+    (∃ s0, C.initGlobals te gl s = .ok s0) ∨ UB (C.initGlobals te gl s) := by
   induction gl generalizing s with
   | nil => left; exact ⟨s, rfl⟩
   | cons g rest ih =>
@@ -279,7 +279,7 @@ theorem init_total (te : C.TyEnv) (gl : List (String × Ty × Expr)) (s : Store)
     rcases C_eval_nameFree_total te s e (hnf (x, t, e) (List.mem_cons_self ..)) with ⟨v, hv⟩ | hv
     · rw [hv, ok_bind]
       exact ih _ (fun g hg => hnf g (List.mem_cons_of_mem _ hg))
-    · rw [hv]; right; rfl
+    · right; exact ub_bind _ hv
 
 theorem init_spec (te : C.TyEnv) (gl : List (String × Ty × Expr)) (s s0 : Store)
     (hpw : gl.Pairwise (fun a b => a.1 ≠ b.1)) (hnf : ∀ g ∈ gl, g.2.2.nameFree = true)
